@@ -402,16 +402,19 @@ def replace_matching_item(
                 output_line = compiled_re.sub(_LINE_SCRUBBED_MESSAGE, output_line)
                 break
 
-            # This is text preceding the password and shouldn't be anonymized
-            prefix = match.group("prefix") if "prefix" in match.groupdict() else ""
-            # re.sub replaces the entire matching string, which includes prefix
-            # Therefore, anon_val should have prefix prepended if applicable
-            anon_val = prefix + _anonymize_value(
-                match.group(sensitive_item_num), pwd_lookup, reserved_words, salt
-            )
-            # Use a function so anon_val is inserted literally (a replacement
+            def _anonymize_match(m, item_num=sensitive_item_num):
+                # This is text preceding the password and shouldn't be anonymized
+                prefix = m.group("prefix") if "prefix" in m.groupdict() else ""
+                # re.sub replaces the entire matching string, which includes prefix
+                # Therefore, the anonymized value has prefix prepended if applicable
+                return prefix + _anonymize_value(
+                    m.group(item_num), pwd_lookup, reserved_words, salt
+                )
+
+            # Every match on the line is anonymized by its own value. Use a
+            # function so the result is inserted literally (a replacement
             # string would have its backslashes interpreted as escapes)
-            output_line = compiled_re.sub(lambda _m, _v=anon_val: _v, output_line)
+            output_line = compiled_re.sub(_anonymize_match, output_line)
 
         # If any matches existed in this regex group, stop processing more regexes
         if match_found:
